@@ -287,7 +287,7 @@ pub fn run_c17(prog: &Prog, ops: &[Op], want_c18: bool) -> Result<RunInfo, Fail>
     info.checks += 1;
     // (3) exactly the inherited closure: reference chase over the asserted facts
     let mut reference = asserted.clone();
-    match chase(p, &prog.paths, &mut reference, 400, 60) {
+    match chase(p, &prog.paths, &mut reference, 150, 60) {
         Ok(_) => {}
         Err(ChaseError::Diverged) => {
             info.budget_hit = true;
